@@ -5,8 +5,15 @@
 set -u
 D=$1; DEMO_DST=$2; PKG=$3; shift 3
 export GOFLAGS=-mod=mod GOPROXY=off GOSUMDB=off GOTOOLCHAIN=local
-cd /repo || exit 2
-git diff --quiet || { echo "/repo is dirty"; exit 2; }
+# SEED_REPO=<dir>: work on a scratch copy made from /repo instead of on /repo itself (the checks
+# then run with VERIF_REPO=<dir>); the copy is removed at the end
+R=/repo
+if [ -n "${SEED_REPO:-}" ]; then
+  R=$SEED_REPO; rm -rf "$R"; mkdir -p "$R"; rsync -a --exclude .git /repo/ "$R"/; (cd "$R" && git init -q . && git add -A >/dev/null 2>&1 && git -c user.email=x -c user.name=x commit -qm base)
+  DEMO_DST=${DEMO_DST/#\/repo/$R}
+fi
+cd $R || exit 2
+git diff --quiet || { echo "$R is dirty"; exit 2; }
 git apply "$D/patch.diff" || { echo "PATCH DOES NOT APPLY"; exit 2; }
 echo "--- build + existing tests with the change"
 go build ./... || echo "BUILD FAILS"
@@ -19,7 +26,7 @@ if [ -n "$DEMO_SRC" ]; then
 fi
 for p in "$@"; do
   echo "--- check $p with the change"
-  (cd /verif && timeout 1200 ./check $p 2>/dev/null | grep -E "VIOLATION|KNOWN" | head -4; echo "exit=$?")
+  (cd /verif && VERIF_REPO=$R timeout 1200 ./check $p 2>/dev/null | grep -E "VIOLATION|KNOWN" | head -4; echo "exit=$?")
   (cd /verif && ls replays/$p-seed1-*.json >/dev/null 2>&1 && python3 -c "
 import json,glob
 for f in sorted(glob.glob('/verif/replays/$p-seed1-*.json'))[:2]:
@@ -32,3 +39,4 @@ if [ -n "$DEMO_SRC" ]; then
   rm -f "$DEMO_DST"
 fi
 git status --short | head -3
+if [ -n "${SEED_REPO:-}" ]; then cd /; rm -rf "$R"; fi
